@@ -575,9 +575,11 @@ Section HashIndep.
       + destruct (t_extend keycap t l) as [t' ok]. cbn [fst snd].
         split; [apply sim_set; [exact HS|reflexivity]|reflexivity].
     - (* NewRodeo *)
+      destruct (isize_max <? cap); [same HS|].
       cbn [new_slot fst snd]. rewrite Hlen.
       split; [apply sim_app; [exact HS|apply rsim_refl]|reflexivity].
     - (* NewThreaded *)
+      destruct (isize_max <? cap); [same HS|].
       cbn [new_slot fst snd]. rewrite Hlen.
       split; [apply sim_app; [exact HS|reflexivity]|reflexivity].
   Qed.
